@@ -1,8 +1,11 @@
+pub mod containers;
 pub mod disasm;
 
 pub fn generate(family: &str, seed: u64, n: usize, tier: &str, emit: &mut dyn FnMut(String)) {
     match family {
         "disasm" => disasm::generate(seed, n, tier, emit),
+        "ds" => containers::generate_ds(seed, n, tier, emit),
+        "vmap" => containers::generate_vmap(seed, n, tier, emit),
         _ => panic!("unknown family {family}"),
     }
 }
@@ -10,6 +13,8 @@ pub fn generate(family: &str, seed: u64, n: usize, tier: &str, emit: &mut dyn Fn
 pub fn eval(family: &str, payload: &str) -> String {
     match family {
         "disasm" => disasm::eval(payload),
+        "ds" => containers::eval_ds(payload),
+        "vmap" => containers::eval_vmap(payload),
         _ => format!("err unknown-family-{family}"),
     }
 }
